@@ -201,6 +201,7 @@ class Cls:
 
 
 SKIP_BODIES = (f"{PKG}/cwl/antlr/",)
+_BUILTINS = set(dir(__import__("builtins")))
 
 
 class Program:
@@ -377,8 +378,10 @@ class Program:
             q = m.imports[head] + (("." + rest) if rest else "")
             return self._canonical(q)
         q = f"{m.name}.{name}"
-        if self._exists(q.rpartition(".")[0]) or self._exists(q) or f"{m.name}.{head}" in self.classes or f"{m.name}.{head}" in self.functions:
+        if self._exists(q) or f"{m.name}.{head}" in self.classes or f"{m.name}.{head}" in self.functions:
             return q
+        if head in _BUILTINS and not self._module_defines(m, head):
+            return name
         # module-level assignment?
         for n in m.tree.body:
             if isinstance(n, (ast.Assign, ast.AnnAssign)):
@@ -387,6 +390,17 @@ class Program:
                     if isinstance(t, ast.Name) and t.id == head:
                         return q
         return None
+
+    def _module_defines(self, m: Module, head: str) -> bool:
+        if "toplevel" not in m.cache:
+            names = set()
+            for n in m.tree.body:
+                if isinstance(n, (ast.Assign, ast.AnnAssign)):
+                    for t in (n.targets if isinstance(n, ast.Assign) else [n.target]):
+                        if isinstance(t, ast.Name):
+                            names.add(t.id)
+            m.cache["toplevel"] = names
+        return head in m.cache["toplevel"]
 
     def _exists(self, q: str) -> bool:
         return q in self.classes or q in self.functions or q in self.modules
